@@ -215,3 +215,126 @@ Definition pca_pcs_b (nsamp nc : nat) (w : list (list (list Z))) (pcs : list (li
           let e := map (fun j => if (j =? nth i (nth k lead []) O)%nat then 1 else 0) (seq 0 nsamp) in
           eq_up_to_sign v e) (seq 0 3)) (seq 0 nc)
   end.
+
+(* ====================== stage 3 additions ====================== *)
+From Coq Require Import Sorting.Mergesort Orders.
+
+(* ---------- closed form of get_features / get_template_features, NaN rows included ---------- *)
+Section Closed.
+Context {A : Type}.
+Variables (zero nanc : A).
+
+(* the row of the NaN-prefilled buffer that from_sparse receives for spike sp *)
+Definition filled_row (st : @store A) (n_loc : nat) (sp : Z) : list A :=
+  match stored_row_f st sp with Some d => d | None => repeat nanc n_loc end.
+Definition colrow_of (st : @store A) (n_loc : nat) (stpl : list Z) (sp : Z) : list Z :=
+  match col_row_f st n_loc stpl sp with Some c => c | None => [] end.
+(* the output row of spike sp: it depends on the store, the spike and the requested channels only --
+   not on the other requested spikes, not on the position in the request *)
+Definition closed_row (st : @store A) (n_loc : nat) (stpl chans : list Z) (sp : Z) : list A :=
+  dense_row zero (colrow_of st n_loc stpl sp) (filled_row st n_loc sp) chans.
+Definition get_dense_closed_form (st : @store A) (n_loc : nat) (stpl ids chans : list Z) : list (list A) :=
+  map (closed_row st n_loc stpl chans) ids.
+End Closed.
+
+(* ---------- a boolean form of the well-formedness premise, usable on large stores ---------- *)
+Module ZLe <: TotalLeBool.
+  Definition t := Z.
+  Definition leb := Z.leb.
+  Theorem leb_total : forall a b, leb a b = true \/ leb b a = true.
+  Proof. intros a b. unfold leb. destruct (Z.leb_spec a b); [now left|right]. apply Z.leb_le. apply Z.lt_le_incl. assumption. Qed.
+End ZLe.
+Module ZSort := Sort ZLe.
+
+Fixpoint sinc_b (l : list Z) : bool :=
+  match l with
+  | x :: ((y :: _) as r) => (x <? y) && sinc_b r
+  | _ => true
+  end.
+(* duplicate-freeness in n log n: sort, then compare neighbours *)
+Definition nodup_fast (l : list Z) : bool := sinc_b (ZSort.sort l).
+
+Section WfB.
+Context {A : Type}.
+(* (the lengths are bound outside the loops: vm_compute would recompute them for every element) *)
+Definition wf_b (st : @store A) (n_loc : nat) (stpl ids : list Z) : bool :=
+  let ns := zlen stpl in
+  forallb (fun row => (length row =? n_loc)%nat) (st_data st) &&
+  nodup_fast ids &&
+  forallb (fun x => (0 <=? x) && (x <? ns)) ids &&
+  match st_rows st with
+  | Some r => nodup_fast r && forallb (fun x => 0 <=? x) r && (length (st_data st) =? length r)%nat
+  | None => (length (st_data st) =? length stpl)%nat
+  end &&
+  match st_cols st with
+  | Some ct => let nt := zlen ct in
+               forallb (fun t => (0 <=? t) && (t <? nt)) stpl && forallb (fun r => (length r =? n_loc)%nat) ct
+  | None => true
+  end.
+End WfB.
+
+(* ---------- principal components: which components are claimed for how many spikes ---------- *)
+(* With k spikes the sample covariance of a channel has rank <= k - 1, so at most k - 1 components are
+   determined (up to sign); _compute_pcs is asked for three.  k <= 1: nothing is claimed (the code uses
+   the bare regulariser).  *)
+Definition claimed (k : nat) : nat := Nat.min 3 (k - 1).
+
+(* the first c leading indices of a variance vector, when each is positive and strictly above all the
+   remaining entries (otherwise the corresponding component is not determined: None) *)
+Fixpoint leadingN (c : nat) (d : list Z) : option (list nat) :=
+  match c with
+  | O => Some []
+  | S c' =>
+      match argmax d with
+      | Some i =>
+          let v := nth i d 0 in
+          let d' := knock d i in
+          match argmax d' with
+          | Some i2 => if (nth i2 d' 0 <? v) && (0 <? v) then option_map (cons i) (leadingN c' d') else None
+          | None => None
+          end
+      | None => None
+      end
+  end.
+Definition pca_leading_c (c nsamp nc : nat) (w : list (list (list Z))) : option (list (list nat)) :=
+  omap (fun k =>
+    if forallb (fun j => forallb (fun j' => (j =? j')%nat || (scov w k j j' =? 0)) (seq 0 nsamp)) (seq 0 nsamp)
+    then leadingN c (map (fun j => scov w k j j) (seq 0 nsamp)) else None) (seq 0 nc).
+
+Definition pca_feat_c_b (c nsamp nc : nat) (w : list (list (list Z))) (feat : list (list (list Z))) : bool :=
+  match pca_leading_c c nsamp nc w with
+  | None => false
+  | Some lead =>
+      (length feat =? length w)%nat &&
+      forallb (fun fl => (length fl =? nc)%nat && forallb (fun cl => (length cl =? 3)%nat) fl) feat &&
+      forallb (fun k =>
+        forallb (fun i =>
+          eq_up_to_sign (map (fun fl => nth i (nth k fl []) 0) feat)
+                        (wcol w (nth i (nth k lead []) O) k)) (seq 0 c)) (seq 0 nc)
+  end.
+Definition pca_pcs_c_b (c nsamp nc : nat) (w : list (list (list Z))) (pcs : list (list (list Z))) : bool :=
+  match pca_leading_c c nsamp nc w with
+  | None => false
+  | Some lead =>
+      (length pcs =? 3)%nat &&
+      forallb (fun pi => (length pi =? nsamp)%nat && forallb (fun r => (length r =? nc)%nat) pi) pcs &&
+      forallb (fun k =>
+        forallb (fun i =>
+          let v := map (fun r => nth k r 0) (nth i pcs []) in
+          let e := map (fun j => if (j =? nth i (nth k lead []) O)%nat then 1 else 0) (seq 0 nsamp) in
+          eq_up_to_sign v e) (seq 0 c)) (seq 0 nc)
+  end.
+
+(* ---------- exactly two spikes, ANY integer waveforms: the leading component of channel k is the
+   direction of d = w1[:, k] - w0[:, k] (when d <> 0), so feature 0 of spike l is +- <w_l, d> / |d|.
+   |d| is irrational in general and the components are stored as float32, hence a tolerance: with
+   nrm = floor(sqrt(|d|^2 * 4^30)) / 2^30 and B = sum_j |w_l[j]| |d_j|,
+       | f * nrm - sg * <w_l, d> |  <=  2^-18 * (B + nrm)                                        *)
+Definition close_b (num den : Z) (sg s B R : Z) : bool :=
+  Z.abs (num * R - sg * s * den * 2 ^ 30) * 2 ^ 18 <=? (B * 2 ^ 30 + R) * den.
+Definition dvec (w0 w1 : list (list Z)) (nsamp k : nat) : list Z :=
+  map (fun j => nth k (nth j w1 []) 0 - nth k (nth j w0 []) 0) (seq 0 nsamp).
+Definition wvec (wl : list (list Z)) (nsamp k : nat) : list Z := map (fun j => nth k (nth j wl []) 0) (seq 0 nsamp).
+Definition zdot (a b : list Z) : Z := zsum (map (fun p => fst p * snd p) (combine a b)).
+Definition zdot_abs (a b : list Z) : Z := zsum (map (fun p => Z.abs (fst p) * Z.abs (snd p)) (combine a b)).
+Definition norm_R (d : list Z) : Z := Z.sqrt (zdot d d * 4 ^ 30).
